@@ -586,27 +586,7 @@ main(int argc, char **argv)
 	P[np][1] = find(L_SUB, 1, "", 0);
 	P[np][2] = find(L_PUB, 0, "a", 1);
 	PL[np++] = 3;
-	for (int i = 0; i < np; i++) {
-		char name[40];
-		// quick: full depth from the initial state, depth-1 from seeded ones
-		g_depth = T ? 4 : (i == 0 ? 3 : 2);
-		snprintf(name, sizeof(name), "sub-P%d-d%d", i, g_depth);
-		g_prefix     = P[i];
-		g_prefix_len = PL[i];
-		if (vx_time_left() < 20)
-			break;
-		explore(name, run_sub, NULL);
-	}
-	if (T && vx_time_left() > 400) {
-		g_depth      = 5;
-		g_prefix_len = 0;
-		explore("sub-P0-d5", run_sub, NULL);
-	}
-	explore("pub-sendbuf1", run_pub, (void *) 1);
-	explore("pub-sendbuf8", run_pub, (void *) 8);
-	vx_note("alphabet", "%d letters: sub/unsub(sock|ctx, topic) recv recvbuf "
-	                    "prefnew pub(body); depth %d; 6 seeded start states",
-	    NAL, g_depth);
+	// schedule scenarios first (bounded size), then the sequence enumerations, deepest last
 	for (int k = 0; k < 2; k++) {
 		vx_cfg c2;
 		memset(&c2, 0, sizeof(c2));
@@ -626,5 +606,30 @@ main(int argc, char **argv)
 			if (i == 0 || vx_is_thorough())
 				orc_explore_tiers(&OR[i]);
 	}
+	for (int i = 0; i < np; i++) {
+		char name[40];
+		// quick: full depth from the initial state, depth-1 from seeded ones
+		// thorough: depth 4 from the initial state (about 2 M executions, last), 3 from the seeded ones
+		if (T && i == 0)
+			continue;
+		g_depth = T ? 3 : (i == 0 ? 3 : 2);
+		snprintf(name, sizeof(name), "sub-P%d-d%d", i, g_depth);
+		g_prefix     = P[i];
+		g_prefix_len = PL[i];
+		if (vx_time_left() < 20)
+			break;
+		explore(name, run_sub, NULL);
+	}
+	explore("pub-sendbuf1", run_pub, (void *) 1);
+	explore("pub-sendbuf8", run_pub, (void *) 8);
+	if (T) {
+		g_depth      = 4;
+		g_prefix     = P[0];
+		g_prefix_len = 0;
+		explore("sub-P0-d4", run_sub, NULL);
+	}
+	vx_note("alphabet", "%d letters: sub/unsub(sock|ctx, topic) recv recvbuf "
+	                    "prefnew pub(body); depth %d; 6 seeded start states",
+	    NAL, g_depth);
 	return vx_finish();
 }
